@@ -162,6 +162,17 @@ type Effects struct {
 	// LeakSites: a value that references package-level memory is stored into
 	// non-local memory (an object of the caller, another global).
 	LeakSites []WriteSite
+	// ParamCalls (second pass only): calls through this function's own
+	// function-typed parameters, with the provenance (in terms of this
+	// function's parameters) of the memory each argument refers to. Their
+	// effects are not part of the summary: each call site of this function
+	// applies the effects of the function it actually binds.
+	ParamCalls map[int]*ParamCall
+}
+
+type ParamCall struct {
+	K    int    // index of the function-typed parameter
+	Args []Prov // per argument of the call: provenance of the memory it refers to
 }
 
 func (ef *Effects) Writes() bool {
@@ -179,6 +190,9 @@ func (ef *Effects) Writes() bool {
 type effectsAnalysis struct {
 	w    *World
 	sum  map[*ssa.Function]*Effects
+	// full: the finished context-insensitive summaries while the second,
+	// callback-sensitive pass runs (nil during the first pass)
+	full map[*ssa.Function]*Effects
 	prov map[ssa.Value]*Prov
 	// contents of local allocations: union of provenance of stored values
 	changed bool
@@ -200,23 +214,80 @@ func (w *World) Effects() map[*ssa.Function]*Effects {
 	}
 	sort.Slice(fns, func(i, j int) bool { return fns[i].String() < fns[j].String() })
 	for _, fn := range fns {
-		sig := fn.Signature
-		a.sum[fn] = &Effects{Fn: fn, WritesParam: make([]bool, len(fn.Params)), WritesParamDeep: make([]bool, len(fn.Params)), WritesGlobals: map[*ssa.Global]bool{},
-			FieldReads: map[string]bool{}, GlobalReads: map[*ssa.Global]bool{}, RetProv: make([]Prov, sig.Results().Len()),
-			Unmodelled: map[string]bool{}, Calls: map[string]bool{}}
+		a.sum[fn] = newEffects(fn)
 	}
-	for round := 0; round < 20; round++ {
-		a.changed = false
+	fixpoint := func() {
+		for round := 0; round < 20; round++ {
+			a.changed = false
+			for _, fn := range fns {
+				a.analyse(fn)
+			}
+			if !a.changed {
+				w.effectRounds = round + 1
+				break
+			}
+		}
+	}
+	fixpoint()
+	// Second pass, only when some function calls through a function-typed
+	// parameter of its own (a visitor / callback): the first pass charges such
+	// a function with the effects of every function any caller binds; the
+	// second keeps those calls symbolic (ParamCalls) and lets each call site
+	// apply the effects of the function it binds. A function whose callbacks
+	// are all resolved that way gets the sharper summary; a function that still
+	// has symbolic callback calls (it is itself the visitor's host) keeps the
+	// first, context-insensitive one.
+	if hasParamCalls(fns) {
+		full := a.sum
+		a.full = full
+		a.sum = map[*ssa.Function]*Effects{}
 		for _, fn := range fns {
-			a.analyse(fn)
+			a.sum[fn] = newEffects(fn)
+			a.sum[fn].ParamCalls = map[int]*ParamCall{}
+			a.sum[fn].RetProv = full[fn].RetProv
 		}
-		if !a.changed {
-			w.effectRounds = round + 1
-			break
+		fixpoint()
+		for _, fn := range fns {
+			if len(a.sum[fn].ParamCalls) > 0 {
+				a.sum[fn] = full[fn]
+			}
 		}
+		a.full = nil
 	}
 	w.effects = a.sum
 	return a.sum
+}
+
+func newEffects(fn *ssa.Function) *Effects {
+	n := len(fn.Params) + len(fn.FreeVars)
+	return &Effects{Fn: fn, WritesParam: make([]bool, n), WritesParamDeep: make([]bool, n), WritesGlobals: map[*ssa.Global]bool{},
+		FieldReads: map[string]bool{}, GlobalReads: map[*ssa.Global]bool{}, RetProv: make([]Prov, fn.Signature.Results().Len()),
+		Unmodelled: map[string]bool{}, Calls: map[string]bool{}}
+}
+
+// hasParamCalls: some function calls a function-typed parameter of its own.
+func hasParamCalls(fns []*ssa.Function) bool {
+	for _, fn := range fns {
+		for _, b := range fn.Blocks {
+			for _, in := range b.Instrs {
+				if ci, ok := in.(ssa.CallInstruction); ok {
+					if prm, ok := ci.Common().Value.(*ssa.Parameter); ok && !ci.Common().IsInvoke() && prm.Parent() == fn {
+						return true
+					}
+				}
+			}
+		}
+	}
+	return false
+}
+
+func paramIndex(fn *ssa.Function, p *ssa.Parameter) int {
+	for i, q := range fn.Params {
+		if q == p {
+			return i
+		}
+	}
+	return -1
 }
 
 // EffectsOracle adapts the summaries for the path engine.
@@ -306,6 +377,8 @@ func (a *effectsAnalysis) analyse(fn *ssa.Function) {
 				}
 			case ssa.CallInstruction:
 				a.callEffects(fn, ef, x)
+			case *ssa.MakeClosure:
+				a.closureEffects(ef, x)
 			}
 		}
 	}
@@ -393,6 +466,15 @@ func (a *effectsAnalysis) get(v ssa.Value) Prov {
 			}
 		}
 	case *ssa.FreeVar:
+		// a captured variable is a pseudo-parameter after the real ones: what
+		// the closure does to it is charged to the function that creates the
+		// closure, at the MakeClosure instruction (closureEffects)
+		fn := x.Parent()
+		for j, fv := range fn.FreeVars {
+			if fv == x && len(fn.Params)+j < 64 {
+				return Prov{Params: 1 << uint(len(fn.Params)+j)}
+			}
+		}
 		return Prov{Unknown: true}
 	}
 	if p := a.prov[v]; p != nil {
@@ -700,6 +782,9 @@ func (a *effectsAnalysis) callResultProv(x *ssa.Call, idx int) Prov {
 		for g := range rp.Holds {
 			p.merge(Prov{Holds: map[*ssa.Global]bool{g: true}})
 		}
+		if (rp.Params|rp.Deep)>>uint(len(f.Params)) != 0 {
+			p.Unknown = true // the result may reference a captured variable of the closure
+		}
 		for i := range f.Params {
 			if rp.Params&(1<<uint(i)) != 0 && i < len(full) {
 				q := a.get(full[i])
@@ -749,6 +834,43 @@ func (a *effectsAnalysis) callResultProv(x *ssa.Call, idx int) Prov {
 	return q
 }
 
+// closureEffects charges what a closure does to its captured variables to the
+// function that creates it: the bindings are known here and nowhere else. A
+// call of the closure elsewhere (through a function-typed parameter, resolved
+// by the call graph) applies its effects on real parameters only; a call that
+// the call graph cannot resolve has unknown effects anyway.
+func (a *effectsAnalysis) closureEffects(ef *Effects, mc *ssa.MakeClosure) {
+	f, ok := mc.Fn.(*ssa.Function)
+	if !ok {
+		return
+	}
+	sum := a.sum[f]
+	if sum == nil {
+		if !ef.WritesUnknown {
+			ef.WritesUnknown = true
+			a.changed = true
+		}
+		return
+	}
+	n := len(f.Params)
+	for j, b := range mc.Bindings {
+		i := n + j
+		if i < len(sum.WritesParam) && sum.WritesParam[i] {
+			deep := sum.WritesParamDeep[i]
+			if _, isLocal := addrRootAlloc(b); !isLocal || deep {
+				p := a.argPointeeProv(b)
+				if deep {
+					p = p.deepen()
+				}
+				a.write(ef, p, WriteSite{Instr: mc, What: "closure " + f.String() + " (writes through captured " + f.FreeVars[j].Name() + ")", Prov: p})
+			}
+		}
+		if i < 64 && sum.StoresParam&(1<<uint(i)) != 0 {
+			a.retain(ef, a.argPointeeProv(b), WriteSite{Instr: mc, What: "closure " + f.String() + " (retains captured " + f.FreeVars[j].Name() + ")"})
+		}
+	}
+}
+
 func (a *effectsAnalysis) callEffects(fn *ssa.Function, ef *Effects, site ssa.CallInstruction) {
 	c := site.Common()
 	if b, ok := c.Value.(*ssa.Builtin); ok {
@@ -777,10 +899,32 @@ func (a *effectsAnalysis) callEffects(fn *ssa.Function, ef *Effects, site ssa.Ca
 	full := a.fullArgs(c)
 	callees := a.w.Callees(site)
 	resolved := false
+	if a.full != nil && !c.IsInvoke() {
+		// second pass: a call through an own function-typed parameter stays symbolic
+		if prm, ok := c.Value.(*ssa.Parameter); ok && prm.Parent() == fn {
+			if k := paramIndex(fn, prm); k >= 0 {
+				args := make([]Prov, len(full))
+				for i, arg := range full {
+					if pointerLike(arg.Type()) {
+						args[i] = a.argPointeeProv(arg)
+					}
+				}
+				a.addParamCall(ef, k, args)
+				return
+			}
+		}
+	}
 	for _, f := range callees {
 		sum := a.sum[f]
 		if sum == nil {
 			continue
+		}
+		if a.full != nil && len(sum.ParamCalls) > 0 {
+			// the callee keeps calls through its function-typed parameters
+			// symbolic: apply the effects of what this site binds to them
+			if !a.applyParamCalls(fn, ef, site, f, sum, full) {
+				sum = a.full[f] // a binding this site does not determine: the union
+			}
 		}
 		resolved = true
 		for i, wr := range sum.WritesParam {
@@ -867,6 +1011,13 @@ func (a *effectsAnalysis) callEffects(fn *ssa.Function, ef *Effects, site ssa.Ca
 			case *types.Pointer, *types.Slice, *types.Map:
 				p := a.argPointeeProv(arg)
 				a.write(ef, p, WriteSite{Instr: site, What: "call " + name + " (stdlib default: may write its pointer arguments)", Prov: p})
+			default:
+				// a reflect.Value is a handle: Set*, Grow, Clear, reflect.Copy … write
+				// the variable it designates
+				if arg.Type().String() == "reflect.Value" {
+					p := a.argPointeeProv(arg)
+					a.write(ef, p, WriteSite{Instr: site, What: "call " + name + " (no model: a reflect.Value argument may be written through)", Prov: p})
+				}
 			}
 		}
 		return
@@ -888,6 +1039,153 @@ func (a *effectsAnalysis) callEffects(fn *ssa.Function, ef *Effects, site ssa.Ca
 			a.write(ef, p, WriteSite{Instr: site, What: "call " + name, Prov: p})
 		}
 	}
+}
+
+func (a *effectsAnalysis) addParamCall(ef *Effects, k int, args []Prov) {
+	pc := ef.ParamCalls[k]
+	if pc == nil {
+		pc = &ParamCall{K: k}
+		ef.ParamCalls[k] = pc
+		a.changed = true
+	}
+	for len(pc.Args) < len(args) {
+		pc.Args = append(pc.Args, Prov{})
+		a.changed = true
+	}
+	for i, p := range args {
+		if pc.Args[i].merge(p) {
+			a.changed = true
+		}
+	}
+}
+
+// translate maps a provenance stated over the callee's parameters to the
+// caller's terms at a call site with the given arguments.
+func (a *effectsAnalysis) translate(p Prov, callee *ssa.Function, full []ssa.Value) Prov {
+	out := Prov{Fresh: p.Fresh, Unknown: p.Unknown}
+	for g := range p.Globals {
+		out.merge(Prov{Globals: map[*ssa.Global]bool{g: true}})
+	}
+	bits := p.Params | p.Deep
+	if bits>>uint(len(callee.Params)) != 0 {
+		out.Unknown = true // a captured variable of the callee: not nameable here
+	}
+	for j := 0; j < len(callee.Params) && j < len(full); j++ {
+		if bits&(1<<uint(j)) == 0 {
+			continue
+		}
+		q := a.argPointeeProv(full[j])
+		if p.Deep&(1<<uint(j)) != 0 {
+			q = q.deepen()
+		}
+		out.merge(q)
+	}
+	return out
+}
+
+// applyParamCalls: for each symbolic callback call of callee f, apply the
+// effects of the function this site binds to that parameter (a function, a
+// closure), or keep it symbolic when the site forwards a function-typed
+// parameter of the caller. Reports false when a binding is neither.
+func (a *effectsAnalysis) applyParamCalls(fn *ssa.Function, ef *Effects, site ssa.CallInstruction, f *ssa.Function, sum *Effects, full []ssa.Value) bool {
+	type bound struct {
+		pc *ParamCall
+		h  *ssa.Function
+		k  int // caller's own parameter (forwarded) when h == nil
+	}
+	var bs []bound
+	for _, pc := range sum.ParamCalls {
+		if pc.K >= len(full) {
+			return false
+		}
+		v := full[pc.K]
+		for {
+			if ct, ok := v.(*ssa.ChangeType); ok {
+				v = ct.X
+				continue
+			}
+			break
+		}
+		switch x := v.(type) {
+		case *ssa.Function:
+			bs = append(bs, bound{pc: pc, h: x})
+		case *ssa.MakeClosure:
+			h, ok := x.Fn.(*ssa.Function)
+			if !ok {
+				return false
+			}
+			bs = append(bs, bound{pc: pc, h: h})
+		case *ssa.Parameter:
+			k := paramIndex(fn, x)
+			if k < 0 {
+				return false
+			}
+			bs = append(bs, bound{pc: pc, k: k})
+		case *ssa.Const:
+			if !x.IsNil() {
+				return false
+			}
+			// nil: the call panics or is guarded — no effect
+		default:
+			return false
+		}
+	}
+	for _, b := range bs {
+		if b.pc == nil {
+			continue
+		}
+		args := make([]Prov, len(b.pc.Args))
+		for i, p := range b.pc.Args {
+			args[i] = a.translate(p, f, full)
+		}
+		if b.h == nil {
+			a.addParamCall(ef, b.k, args)
+			continue
+		}
+		hs := a.sum[b.h]
+		if hs == nil || len(hs.ParamCalls) > 0 {
+			hs = a.full[b.h]
+		}
+		if hs == nil {
+			if !ef.WritesUnknown {
+				ef.WritesUnknown = true
+				a.changed = true
+			}
+			continue
+		}
+		for i, wr := range hs.WritesParam {
+			if !wr || i >= len(args) || i >= len(b.h.Params) {
+				continue // captured variables are charged where the closure is made
+			}
+			p := args[i]
+			if hs.WritesParamDeep[i] {
+				p = p.deepen()
+			}
+			a.write(ef, p, WriteSite{Instr: site, What: "call " + f.String() + " → callback " + b.h.String(), Prov: p})
+		}
+		for g := range hs.WritesGlobals {
+			if !ef.WritesGlobals[g] {
+				ef.WritesGlobals[g] = true
+				a.changed = true
+			}
+		}
+		if hs.WritesUnknown && !ef.WritesUnknown {
+			ef.WritesUnknown = true
+			a.changed = true
+		}
+		for k := range hs.Unmodelled {
+			ef.Unmodelled[k] = true
+		}
+		for i := range b.h.Params {
+			if i < 64 && hs.StoresParam&(1<<uint(i)) != 0 && i < len(args) {
+				a.retain(ef, args[i], WriteSite{Instr: site, What: "call " + f.String() + " → callback " + b.h.String() + " (retains argument)"})
+			}
+		}
+		if hs.Spawns {
+			ef.Spawns = true
+		}
+	}
+	return true
 }
 
 // argPointeeProv: provenance of the memory an argument refers to. For the
